@@ -1,12 +1,189 @@
 import MidnightZK.Model.Common
-/-! Line-protocol handler of property C14 (stub: answers `unimplemented`). -/
+import MidnightZK.Model.C14.Sets
+import MidnightZK.Model.C14.Open
+import MidnightZK.Model.C14.Fr
+/-! Line-protocol handler of property C14 (stateful: `verify` lines refer to the last `prove`). -/
 namespace MidnightZK.C14.Driver
+open MidnightZK MidnightZK.C14
 
-def answer (_line : String) : String := "unimplemented"
+def fr (n : Nat) : Fr := Fr.ofNat n
+def fmtFr (l : List Fr) : String := fmtHexList (l.map (·.val))
+def dots (l : List String) : String := if l.isEmpty then "-" else ".".intercalate l
+
+def parseFrList? (s : String) : Option (List Fr) := (parseNatList? s).map (·.map fr)
+
+/-- `c:p:e,c:p:e,…` or `-` -/
+def parseAbstractQueries? (s : String) : Option (List (Query Nat Fr Fr)) :=
+  if s = "-" then some [] else
+  (s.splitOn ",").mapM (fun t =>
+    match t.splitOn ":" with
+    | [c, p, e] => do
+      let c ← c.toNat?
+      let p ← parseNat? p
+      let e ← parseNat? e
+      pure { com := c, point := fr p, eval := fr e }
+    | _ => none)
+
+def fmtSets (res : Option (List (CommitmentData Nat Fr) × List (List Fr))) : String :=
+  match res with
+  | none => "err dup"
+  | some (cm, sets) =>
+    let s := if sets.isEmpty then "-" else "|".intercalate (sets.map (fun ps => dots (ps.map (fun p => toHex p.val))))
+    let c := if cm.isEmpty then "-" else ";".intercalate (cm.map (fun d =>
+      s!"{d.com}:{d.setIndex}:{dots (d.pointIndices.map toString)}:{dots (d.evals.map (fun e => toHex e.val))}"))
+    s!"ok S={s} C={c}"
+
+/-- What a `prove` line leaves for the following `verify` lines. -/
+structure St where
+  s : Fr := 0
+  dF : Fr := 0
+  dPi : Fr := 0
+deriving Inhabited
+
+def stripKey (key s : String) : Option String :=
+  if s.startsWith key then some (s.drop key.length).toString else none
+
+/-- `i@pt,…` -/
+def parseProverQueries? (polys : List (List Fr)) (s : String) : Option (List (Query Nat Fr Fr)) :=
+  if s = "-" then some [] else
+  (s.splitOn ",").mapM (fun t =>
+    match t.splitOn "@" with
+    | [i, p] => do
+      let i ← i.toNat?
+      let p ← parseNat? p
+      pure { com := i, point := fr p, eval := evalPoly (polys.getD i []) (fr p) }
+    | _ => none)
+
+def parseComRef? (s : String) : Option ComRef :=
+  if s.startsWith "c" then
+    match (s.drop 1).toString.splitOn ":" with
+    | [n, parts] => do
+      let n ← n.toNat?
+      let parts ← if parts.isEmpty then some [] else (parts.splitOn "+").mapM String.toNat?
+      pure (.chopped parts n)
+    | _ => none
+  else (s.toNat?).map .one
+
+/-- `ref@pt=ev,…` -/
+def parseVerifierQueries? (s : String) : Option (List (Query ComRef Fr Fr)) :=
+  if s = "-" then some [] else
+  (s.splitOn ",").mapM (fun t =>
+    match t.splitOn "@" with
+    | [r, pe] =>
+      match pe.splitOn "=" with
+      | [p, e] => do
+        let r ← parseComRef? r
+        let p ← parseNat? p
+        let e ← parseNat? e
+        pure { com := r, point := fr p, eval := fr e }
+      | _ => none
+    | _ => none)
+
+def repeatChar (c : Char) (n : Nat) : String := String.ofList (List.replicate n c)
+
+def runProve (k sNat : Nat) (polys : List (List Fr)) (qs : List (Query Nat Fr Fr)) (xs : List Fr) : St × String :=
+  let x (i : Nat) := xs.getD i 0
+  match multiOpen (2 ^ k) polys qs (x 0) (x 1) (x 2) (x 3) with
+  | .error .dup => ({}, "err dup")
+  | .error .panic => ({}, "panic")
+  | .ok out =>
+    let s := fr sNat
+    let dF := commitLog s out.fPoly
+    let dPi := commitLog s out.piPoly
+    ({ s, dF, dPi },
+     s!"ev=cSSgS{repeatChar 'f' out.qEvals.length}Sg f={mulGenStr dF.val} qe={fmtFr out.qEvals} pi={mulGenStr dPi.val}")
+
+/-- Name of a base: the first entry of the table `coms ++ [F, P, -G]` with the same value. -/
+def baseName (st : St) (ks : List Fr) (dF dPi : Option Fr) (b : Base) : String :=
+  let d : Option Fr := match b with
+    | .com i => ks[i]?
+    | .f => dF
+    | .pi => dPi
+    | .negG => some (-(1 : Fr))
+  let _ := st
+  match d with
+  | none => "?"
+  | some d =>
+    match ks.findIdx? (· = d) with
+    | some i => s!"k{i}"
+    | none =>
+      if dF = some d then "F" else if dPi = some d then "P" else if d = -(1 : Fr) then "N" else "?"
+
+def fmtMsm (st : St) (ks : List Fr) (dF dPi : Option Fr) (m : List (Fr × Base)) : String :=
+  if m.isEmpty then "-" else ",".intercalate (m.map (fun t => s!"{toHex t.1.val}*{baseName st ks dF dPi t.2}"))
+
+/-- `verify K=<logs> T=<δf>,<δπ> V=<F|U|->;<q evals>;<P|U|-> Q=<queries> X=<challenges>` -/
+def runVerify (st : St) (ks : List Fr) (dlt : List Fr) (vf : String) (vq : List Fr) (vp : String)
+    (qs : List (Query ComRef Fr Fr)) (xs : List Fr) : String :=
+  let x (i : Nat) := xs.getD i 0
+  let view : ProofView Fr := { hasF := vf ≠ "-", qEvals := vq, hasPi := vp ≠ "-" }
+  -- events up to the point where the verifier stops
+  let nsetsOpt := (constructIntermediateSets (0 : Fr) qs).map (fun r => r.2.length)
+  match nsetsOpt with
+  | none => "ev=cSS err dup"
+  | some nsets =>
+    if vq.length > nsets then "view-mismatch" else
+    let evs :=
+      if ¬ view.hasF then "cSS!" else
+      if vq.length < nsets then s!"cSSGS{repeatChar 'F' vq.length}!" else
+      if ¬ view.hasPi then s!"cSSGS{repeatChar 'F' nsets}S!" else s!"cSSGS{repeatChar 'F' nsets}SG"
+    match multiPrepare Fr.inv true qs view (x 0) (x 1) (x 2) (x 3) with
+    | .error .dup => "ev=cSS err dup"
+    | .error .sampling => s!"ev={evs} err sampling"
+    | .error .panic => "panic"
+    | .ok dual =>
+      let dF : Option Fr := if vf = "F" then some (st.dF + dlt.getD 0 0) else none
+      let dPi : Option Fr := if vp = "P" then some (st.dPi + dlt.getD 1 0) else none
+      let acc :=
+        match dF, dPi with
+        | some f, some p =>
+          let dlog : Base → Fr := fun b => match b with
+            | .com i => ks.getD i 0
+            | .f => f
+            | .pi => p
+            | .negG => -(1 : Fr)
+          checkLog st.s dlog dual
+        | _, _ => false   -- an element without known logarithm (misaligned read): never accepted
+      s!"ev={evs} L={fmtMsm st ks dF dPi dual.left} R={fmtMsm st ks dF dPi dual.right} acc={fmtBool acc}"
+
+def step (st : St) (line : String) : St × String :=
+  match words line with
+  | ["gen"] => (st, mulGenStr 1)
+  | ["sets", qs] =>
+    match parseAbstractQueries? qs with
+    | some qs => (st, fmtSets (constructIntermediateSets (0 : Fr) qs))
+    | none => (st, "bad-op")
+  | ["prove", k, s, p, q, x] =>
+    match k.toNat?, parseNat? s, stripKey "P=" p, stripKey "Q=" q, stripKey "X=" x with
+    | some k, some s, some p, some q, some x =>
+      match (p.splitOn ";").mapM parseFrList?, parseFrList? x with
+      | some polys, some xs =>
+        match parseProverQueries? polys q with
+        | some qs => runProve k s polys qs xs
+        | none => (st, "bad-op")
+      | _, _ => (st, "bad-op")
+    | _, _, _, _, _ => (st, "bad-op")
+  | ["verify", k, t, v, q, x] =>
+    match stripKey "K=" k, stripKey "T=" t, stripKey "V=" v, stripKey "Q=" q, stripKey "X=" x with
+    | some k, some t, some v, some q, some x =>
+      match parseFrList? k, parseFrList? t, v.splitOn ";", parseVerifierQueries? q, parseFrList? x with
+      | some ks, some dlt, [vf, vq, vp], some qs, some xs =>
+        match parseFrList? vq with
+        | some vq =>
+          if (vf = "F" ∨ vf = "U" ∨ vf = "-") ∧ (vp = "P" ∨ vp = "U" ∨ vp = "-") then
+            (st, runVerify st ks dlt vf vq vp qs xs)
+          else (st, "bad-op")
+        | none => (st, "bad-op")
+      | _, _, _, _, _ => (st, "bad-op")
+    | _, _, _, _, _ => (st, "bad-op")
+  | _ => (st, "bad-op")
+
+/-- Stateless entry point (for tests): a single line answered from the initial state. -/
+def answer (line : String) : String := (step {} line).2
 
 end MidnightZK.C14.Driver
 
 /-- `mzk-c14 < ops.txt > model.txt` : one answer line per request line. -/
 def main : IO UInt32 := do
-  MidnightZK.lineLoop (← IO.getStdin) (← IO.getStdout) MidnightZK.C14.Driver.answer
+  MidnightZK.lineLoopSt (← IO.getStdin) (← IO.getStdout) MidnightZK.C14.Driver.step {}
   return 0
